@@ -214,14 +214,12 @@ package rapid
 
 //@ callback func(*T) V
 //@   params fn, t
-//@   requires [C14] unlocked(t)
 //@   ensures drawn >= old(drawn) && relyUser(t)
 //@   panics any: drawn >= old(drawn) && relyUser(t)
 //@   modifies drawn, t.failed, t.cleanups, elems(t.cleanups), t.ctx, t.cancelCtx, t.draws
 
 //@ callback func(*T) (V, bool)
 //@   params fn, t
-//@   requires [C14] unlocked(t)
 //@   ensures drawn >= old(drawn) && relyUser(t)
 //@   panics any: drawn >= old(drawn) && relyUser(t)
 //@   modifies drawn, t.failed, t.cleanups, elems(t.cleanups), t.ctx, t.cancelCtx, t.draws
@@ -271,21 +269,23 @@ package rapid
 //@ define lenOK(n, minLen, maxLen) = implies(minLen >= 0, n >= minLen) && implies(maxLen >= 0, n <= maxLen)
 
 //@ func (*sliceGen).value
+//@   noframe "runs element generators, which may run user code"
 //@   requires [C03] g.maxLen < 0 || g.minLen <= g.maxLen
 //@   requires [C03] g.minLen < 1<<52
 //@   ensures [C03] lenOK(len(result), g.minLen, g.maxLen)
 //@   panics any: true
-//@   modifies drawn, t.failed, t.cleanups, t.ctx, t.cancelCtx, t.draws, g.elem.str, g.elem.strOnce
+//@   modifies drawn, t.failed, t.cleanups, elems(t.cleanups), t.ctx, t.cancelCtx, t.draws, g.elem.str, g.elem.strOnce
 //@   loop 0 invariant [C03] len(sl) == repeat.count && repeatInv(repeat) && groupUsed(repeat)
 //@   loop 0 invariant [C03] repeat.minCount == minOf(g.minLen) && repeat.maxCount == maxOf(g.maxLen)
 
 //@ func (*mapGen).value
+//@   noframe "runs element generators, which may run user code"
 //@   requires [C03] g.key != nil || g.keyFn != nil
 //@   requires [C03] g.maxLen < 0 || g.minLen <= g.maxLen
 //@   requires [C03] g.minLen < 1<<52
 //@   ensures [C03] lenOK(len(result), g.minLen, g.maxLen)
 //@   panics any: true
-//@   modifies drawn, t.failed, t.cleanups, t.ctx, t.cancelCtx, t.draws, g.val.str, g.val.strOnce, g.key.str, g.key.strOnce
+//@   modifies drawn, t.failed, t.cleanups, elems(t.cleanups), t.ctx, t.cancelCtx, t.draws, g.val.str, g.val.strOnce, g.key.str, g.key.strOnce
 //@   loop 0 invariant [C03] len(m) == repeat.count && repeatInv(repeat) && groupUsed(repeat)
 //@   loop 0 invariant [C03] repeat.minCount == minOf(g.minLen) && repeat.maxCount == maxOf(g.maxLen)
 
@@ -306,14 +306,16 @@ package rapid
 //@   modifies drawn
 
 //@ func (*oneOfGen).value
+//@   noframe "runs element generators, which may run user code"
 //@   requires [C03] len(g.gens) > 0
 //@   panics any: true
-//@   modifies drawn, t.failed, t.cleanups, t.ctx, t.cancelCtx, t.draws
+//@   modifies drawn, t.failed, t.cleanups, elems(t.cleanups), t.ctx, t.cancelCtx, t.draws
 
 //@ func (*ptrGen).value
+//@   noframe "runs element generators, which may run user code"
 //@   ensures [C03] implies(!g.allowNil, result != nil)
 //@   panics any: true
-//@   modifies drawn, t.failed, t.cleanups, t.ctx, t.cancelCtx, t.draws
+//@   modifies drawn, t.failed, t.cleanups, elems(t.cleanups), t.ctx, t.cancelCtx, t.draws
 
 //@ func (*permGen).value
 //@   ensures [C03] len(result) == len(g.slice)
@@ -347,12 +349,13 @@ package rapid
 // strings.go
 
 //@ func (*stringGen).value
+//@   noframe "runs element generators, which may run user code"
 //@   requires [C03] g.maxRunes < 0 || g.minRunes <= g.maxRunes
 //@   requires [C03] g.minRunes < 1<<52
 //@   ensures [C03] implies(g.maxLen >= 0, len(result) <= g.maxLen)
 //@   ensures [C03] minOf(g.minRunes) <= runesWritten - old(runesWritten) && runesWritten - old(runesWritten) <= maxOf(g.maxRunes)
 //@   panics any: true
-//@   modifies drawn, runesWritten, t.failed, t.cleanups, t.ctx, t.cancelCtx, t.draws, g.elem.str, g.elem.strOnce
+//@   modifies drawn, runesWritten, t.failed, t.cleanups, elems(t.cleanups), t.ctx, t.cancelCtx, t.draws, g.elem.str, g.elem.strOnce
 //@   loop 0 invariant [C03] repeatInv(repeat) && groupUsed(repeat) && len(b.buf) <= maxLen
 //@   loop 0 invariant [C03] repeat.minCount == minOf(g.minRunes) && repeat.maxCount == maxOf(g.maxRunes) && maxLen == maxOf(g.maxLen)
 //@   loop 0 invariant [C03] runesWritten - old(runesWritten) == repeat.count
@@ -578,6 +581,7 @@ package rapid
 //@   modifies drawn, t.failed, t.cleanups, elems(t.cleanups), t.ctx, t.cancelCtx, t.draws, lockmode[addr(t.mu)]
 
 //@ func (*Generator).Draw
+//@   assumes-pre len(t.refDraws) == 0
 //@   noframe "draws through arbitrary generator implementations"
 //@   assumes "generator implementations signal a failure only by panicking, never by recording it on the enclosing *T"
 //@   ensures t.failed == old(t.failed)
